@@ -9,7 +9,7 @@
    Part 2 (values): theorems for all operand values about the operations the VM model uses
    (Arith/IntOps.v; floating operations are Coq.Floats.SpecFloat, whose IEEE conformance is
    Flocq's theorem, cited in Arith/FloatOps.v).
-   `_refuted` = the statement fails on the pinned tree, with the witness;
+   `_refuted` = the statement fails on the tree, with the witness;
    `_partial` = the statement restricted to the cells/values where it holds. *)
 From Coq Require Import ZArith Bool List.
 From NV Require Import Arith.NumTy Arith.Bits Arith.BitsProofs Arith.IntOps Arith.IntOpsProofs
@@ -35,37 +35,25 @@ Theorem binary_table_covers_numeric_pairs :
 Proof. exact PromoteProofs.binary_table_covers_numeric_pairs. Qed.
 Print Assumptions binary_table_covers_numeric_pairs.
 
-(* an assignment converts the right side to the left type and stores with the left type's
-   opcode: FALSE on the pinned tree (int <- double uses OP_ASS_DOUBLE on an int cell) *)
-Theorem assignment_converts_to_left_refuted :
-  exists l r, is_num l = true /\ is_num r = true /\ ass_cell_ok l r = false.
-Proof. exact PromoteProofs.assignment_converts_to_left_refuted. Qed.
-Print Assumptions assignment_converts_to_left_refuted.
+(* an assignment converts the right side to the left type and stores it with the left type's
+   opcode: all 16 numeric pairs *)
+Theorem assignment_converts_to_left :
+  forall l r, is_num l = true -> is_num r = true -> ass_cell_ok l r = true.
+Proof. exact PromoteProofs.assignment_converts_to_left. Qed.
+Print Assumptions assignment_converts_to_left.
 
-Theorem assignment_converts_to_left_partial :
-  forall l r, is_num l = true -> is_num r = true ->
-    (l, r) <> (TInt, TDouble) -> ass_cell_ok l r = true.
-Proof. exact PromoteProofs.assignment_converts_to_left_partial. Qed.
-Print Assumptions assignment_converts_to_left_partial.
-
-(* the opcode is the operator's own at the common operand type: FALSE on the pinned tree
-   (bool != bool is emitted as OP_EQ_INT) *)
-Theorem opcode_matches_type_refuted :
-  exists y, In y binop_table /\ is_bool_neq y = true /\ opcode_cell_ok y = false.
-Proof. exact PromoteProofs.opcode_matches_type_refuted. Qed.
-Print Assumptions opcode_matches_type_refuted.
-
-Theorem opcode_matches_type_partial :
-  forall y, In y binop_table -> is_bool_neq y = false -> opcode_cell_ok y = true.
-Proof. exact PromoteProofs.opcode_matches_type_partial. Qed.
-Print Assumptions opcode_matches_type_partial.
+(* the opcode is the operator's own at the common operand type (bool and item-enum operands
+   are ints at run time): every cell for which an opcode is emitted *)
+Theorem opcode_matches_type : forall y, In y binop_table -> opcode_cell_ok y = true.
+Proof. exact PromoteProofs.opcode_matches_type. Qed.
+Print Assumptions opcode_matches_type.
 
 Theorem unary_opcode_matches_type :
   forall y v, In y unop_table -> uo_emit y = EmitOp v -> v = VUn (uo_op y) (runtime_ty (uo_t y)).
 Proof. exact PromoteProofs.unary_opcode_matches_type. Qed.
 Print Assumptions unary_opcode_matches_type.
 
-(* every accepted operator application has an opcode: FALSE on the pinned tree (comparisons
+(* every accepted operator application has an opcode: FALSE on the tree (comparisons
    and % with an enum operand pass the typechecker and abort in front/emit.c) *)
 Theorem accepted_cells_are_emitted_refuted :
   exists y, In y binop_table /\ bo_emit y = EmitAbort.
@@ -100,7 +88,22 @@ Theorem arith_exact_when_fits : forall n a b, 0 < n ->
 Proof. exact IntOpsProofs.arith_exact_when_fits. Qed.
 Print Assumptions arith_exact_when_fits.
 
-(* / truncates toward zero, % has the sign of the dividend — except on the overflow pair *)
+(* / and % never trap: for every non-zero divisor the quotient is the truncated quotient
+   brought to n bits, the remainder is the truncated remainder *)
+Theorem div_never_traps : forall n a b, 0 < n -> b <> 0 ->
+  idiv n a b = IVal (wrap n (Z.quot a b)) /\ imod n a b = IVal (Z.rem a b) /\
+  in_range n (wrap n (Z.quot a b)) /\
+  (in_range n b -> in_range n (Z.rem a b)).
+Proof. exact IntOpsProofs.div_never_traps. Qed.
+Print Assumptions div_never_traps.
+
+(* INT_MIN / -1 = wrap(2^(n-1)) = INT_MIN, INT_MIN % -1 = 0 *)
+Theorem div_overflow_wraps : forall n, 0 < n ->
+  idiv n (int_min n) (-1) = IVal (int_min n) /\ imod n (int_min n) (-1) = IVal 0.
+Proof. exact IntOpsProofs.div_overflow_wraps. Qed.
+Print Assumptions div_overflow_wraps.
+
+(* on every other pair / truncates toward zero exactly, % has the sign of the dividend *)
 Theorem div_truncates : forall n a b, 0 < n -> in_range n a -> in_range n b ->
   b <> 0 -> div_overflows n a b = false ->
   exists q r, idiv n a b = IVal q /\ imod n a b = IVal r /\
@@ -112,12 +115,6 @@ Print Assumptions div_truncates.
 Theorem div_by_zero_faults : forall n a, idiv n a 0 = IDivZero /\ imod n a 0 = IDivZero.
 Proof. exact IntOpsProofs.div_by_zero_faults. Qed.
 Print Assumptions div_by_zero_faults.
-
-(* "division never traps" is FALSE: INT_MIN / -1 and INT_MIN % -1 raise SIGFPE *)
-Theorem div_never_traps_refuted : forall n, 0 < n ->
-  idiv n (int_min n) (-1) = ISigFpe /\ imod n (int_min n) (-1) = ISigFpe.
-Proof. exact IntOpsProofs.div_overflow_traps. Qed.
-Print Assumptions div_never_traps_refuted.
 
 Theorem compare_total_int : forall a b,
   ilt a b + ieq a b + igt a b = 1 /\
